@@ -87,7 +87,7 @@ prop("C02", True, "model_checking",
      TB + "; recover() and a 20 s watchdog in the driver. BasicParser misuse (arbitrary override, nil arguments) is out of the property's quantifier.", "DESIGN.md section 4/C02")
 prop("C16", True, "model_checking",
      "spec/Options.tla: each option as [trigger, option record / setter composition / postcondition]; trigger sufficiency checked by TLC on the spec; (input x option) composite events from the real code validated by TLC",
-     "Neutrality outside the trigger for the six relaxing options (alone and combined), exact prediction for special schemes, the five replaced percent-encode sets, remove-user-info/port/fragment (standard's setters), default-scheme, skip-equals (list machine), no-option parsers/profiles (also ParseRef with an empty base); postconditions for collapse, single-percent, sort-query.",
+     "Neutrality outside the trigger for the six relaxing options (alone and combined), exact prediction for special schemes, the five replaced percent-encode sets, remove-user-info/port/fragment (standard's setters), default-scheme, skip-equals (list machine), no-option parsers/profiles (also ParseRef with an empty base, and a profile's ParseRef against opaque-path bases); postconditions for collapse, single-percent, sort-query. Recorded random HISTORIES (parse / resolve / setters / SearchParams / clone) on parsers built with the special-scheme tables and replaced sets are validated against the specification run with the option record; the same on parsers with collapse / single-percent / skip-drive / accept-invalid, where a mismatch counts only if no input of the history so far contains the trigger (neutrality on histories).",
      TB, "DESIGN.md section 4/C16")
 prop("C17", True, "model_checking",
      "exact TLA+ model of the canonicalizer pipeline (spec/Canon.tla CanonRun: default-scheme retry, repeated percent-decoding re-entered through the standard's setters, remove-*, sort-query on the list machine; GoogleSafeBrowsing and Semantic as option records incl. lax host / accept-invalid / Latin-1) + the fixed-point law; both evaluated by TLC on outputs observed from the real profiles",
